@@ -506,6 +506,9 @@ func (s *FlowStats) UnmarshalBinary(data []byte) error {
 
 	for n < int(s.Length) {
 		instr := DecodeInstr(data[n:])
+		if instr.Len() == 0 {
+			break
+		}
 		s.Instructions = append(s.Instructions, instr)
 		n += int(instr.Len())
 	}
